@@ -17,7 +17,10 @@ use std::{fmt::Debug, hash::Hash, ops::Deref, sync::Arc};
 use foyer_common::code::StorageKey;
 use foyer_memory::Piece;
 use hashbrown::hash_table::{Entry as HashTableEntry, HashTable};
+#[cfg(not(foyer_verif))]
 use parking_lot::RwLock;
+#[cfg(foyer_verif)]
+use foyer_common::verif::sync::{RwLock};
 
 type Shard<K, V, P> = HashTable<Piece<K, V, P>>;
 
